@@ -5,7 +5,7 @@
    Tensors are (shape, flat row-major data).  Matrix inverse roots are NOT computed: the stored
    preconditioners are oracle answers (checked against the root spec by C01's certificate);
    square roots are computed by an integer square root on 2^-40-scaled rationals (sqrt_q). *)
-From Precond Require Import Base.PyLib Base.QMat C06.Records C06.Ref.
+From Precond Require Import Base.PyLib Base.QMat Base.Tensor C06.Records C06.Ref.
 From Coq Require Import QArith Qround.
 Open Scope Q_scope.
 
@@ -20,13 +20,9 @@ Definition sqrt_q (x : Q) : Q :=
 
 Definition vnorm (v : vec) : Q := sqrt_q (qnorm (dot v v)).
 
-(* ---------- tensors ---------- *)
-Record tensor := mkT { t_shape : list nat; t_data : vec }.
-
-Definition prodn (l : list nat) : nat := fold_left Nat.mul l 1%nat.
-
-Fixpoint chunks {A} (n : nat) (k : nat) (l : list A) : list (list A) :=   (* k chunks of length n *)
-  match k with O => [] | S k' => firstn n l :: chunks n k' (skipn n l) end.
+(* ---------- tensors (Base.Tensor, over Q) ---------- *)
+Notation tensor := (Base.Tensor.tensor Q) (only parsing).
+Notation prodn := Base.Tensor.prodn (only parsing).
 
 (* leading-dimension unfolding: d0 x (product of the rest) *)
 Definition unfold0 (t : tensor) : mat :=
@@ -59,52 +55,6 @@ Fixpoint grams_from (k : nat) (t : tensor) : list mat :=
   | S k' => let G := unfold0 t in mmul G (transpose_n (ncols G) G) :: grams_from k' (roll_with None t)
   end.
 Definition grams (t : tensor) : list mat := grams_from (length (t_shape t)) t.
-
-(* ---------- splitting / concatenating along an axis ---------- *)
-(* view: outer = product of dims before the axis; each outer slice is a chunk of dim_axis * inner *)
-Definition split_axis (axis : nat) (sizes : list nat) (t : tensor) : list tensor :=
-  let sh := t_shape t in
-  let outer := prodn (firstn axis sh) in
-  let inner := prodn (skipn (S axis) sh) in
-  let d := nth axis sh 0%nat in
-  let slabs := chunks (d * inner) outer (t_data t) in
-  let offs := fold_left (fun acc s => acc ++ [(last acc 0 + s)%nat]) sizes [0%nat] in
-  map (fun '(o, s) =>
-         mkT (firstn axis sh ++ [s] ++ skipn (S axis) sh)
-             (concat (map (fun slab => firstn (s * inner) (skipn (o * inner) slab)) slabs)))
-      (combine offs sizes).
-
-Definition concat_axis (axis : nat) (ts : list tensor) : tensor :=
-  match ts with
-  | [] => mkT [] []
-  | t0 :: _ =>
-    let sh := t_shape t0 in
-    let outer := prodn (firstn axis sh) in
-    let inner := prodn (skipn (S axis) sh) in
-    let d := fold_left Nat.add (map (fun t => nth axis (t_shape t) 0%nat) ts) 0%nat in
-    let slabss := map (fun t => chunks (nth axis (t_shape t) 0%nat * inner) outer (t_data t)) ts in
-    let rows := map (fun o => concat (map (fun slabs => nth o slabs []) slabss)) (seq 0 outer) in
-    mkT (firstn axis sh ++ [d] ++ skipn (S axis) sh) (concat rows)
-  end.
-
-(* BlockPartitioner.partition / merge_partitions, driven by the split sizes of C06.Ref *)
-Definition partition (split_sizes : list (list nat)) (t : tensor) : list tensor :=
-  fold_left (fun ts '(axis, sizes) =>
-               if Nat.leb (length sizes) 1 then ts else flat_map (split_axis axis sizes) ts)
-            (combine (seq 0 (length split_sizes)) split_sizes) [t].
-
-Fixpoint group {A} (n : nat) (fuel : nat) (l : list A) : list (list A) :=
-  match fuel with
-  | O => []
-  | S f => match l with [] => [] | _ => firstn n l :: group n f (skipn n l) end
-  end.
-
-Definition merge_partitions (split_sizes : list (list nat)) (parts : list tensor) : tensor :=
-  let r := fold_right (fun '(axis, sizes) ps =>
-                         if Nat.leb (length sizes) 1 then ps
-                         else map (concat_axis axis) (group (length sizes) (length ps) ps))
-                      parts (combine (seq 0 (length split_sizes)) split_sizes) in
-  hd (mkT [] []) r.
 
 (* ---------- configuration ---------- *)
 Record cfg := mkcfg {
